@@ -14,7 +14,7 @@ from concurrent.futures import ThreadPoolExecutor
 from core import (VERIF, REPO, BUILD, GUARD, Report, Inconclusive, tier, seed, build_probe)
 
 KANI_TIMEOUT_S = int(os.environ.get("VERIF_KANI_TIMEOUT", "0")) or None
-MEM_LIMIT = 24 * 1024 ** 3
+MEM_LIMIT = 10 * 1024 ** 3
 HARNESS_TIMEOUT_S = int(os.environ.get("VERIF_HARNESS_TIMEOUT", "900"))
 
 
